@@ -248,6 +248,13 @@ ALTS_QUICK = {
     'ref': [1, 2, 3], 'bump': [1, 2, 3], 'first': [1, 65535], 'savever': [2, 3, 4, 5], 'regen': [0, 1],
 }
 ALTS_THOROUGH = dict(ALTS_QUICK, frames=[2, 3], depth=[2, 3], pix=[1, 2, 'special'])
+# reduced menu (one or two boundary values per dimension) explored one deviation level deeper
+ALTS_DEEP = {
+    'w': [1, 2, 8], 'h': [1, 2, 8], 'frames': [2], 'depth': [2], 'cube': [1], 'ver': [2, 4],
+    'fmt': ['BGRA5551', 'RGB565', 'I8', 'BGR888_BLUESCREEN'], 'thumb': ['RGB888', 'BGRA4444'],
+    'res': ['both', 'order'], 'sheet': ['two_tf'], 'sheetver': [0], 'flag': [0, 31], 'mips': ['explicit'],
+    'savever': [2, 4], 'regen': [1], 'first': [1],
+}
 
 
 def deviations(alts: dict, d: int):
@@ -556,7 +563,9 @@ def check_case(acc: core.Acc, dev: dict) -> None:
     try:
         vtf.save(buf, **save_kw)
     except Exception as exc:  # noqa: BLE001
-        if cfg['savever'] and isinstance(exc, ValueError):
+        unrepresentable = out_minor < 3 and (cfg['res'] != 'none' or cfg['sheet'] != 'none')
+        if isinstance(exc, ValueError) and ((cfg['savever'] and cube) or unrepresentable):
+            # an explicit refusal of something the target version cannot hold is not a round-trip failure
             acc.outcome(('save_refused', cube, minor, out_minor))
             return
         acc.fail('save_error', case, f'save({save_kw}) raised {type(exc).__name__}: {exc}', exc=type(exc).__name__)
@@ -590,8 +599,9 @@ def check_case(acc: core.Acc, dev: dict) -> None:
                 msg = check_mip_mean(mem[0, src_face, m], pw, ph, thumb_mem, 16, 16)
                 if msg:
                     acc.fail('mip_mean', case, f'generated thumbnail: {msg}', src='thumbnail', shape=shape)
-    elif thumb_supplied is not None and thumb_mem != thumb_supplied:
-        acc.fail('save_mutates_pixels', case, 'thumbnail pixels supplied before save() differ afterwards', fmt=thumb)
+    elif thumb_supplied is not None:
+        # the thumbnail is derived data; what must hold is stored == q(in-memory after save)
+        acc.count('thumbnail_pattern_kept' if thumb_mem == thumb_supplied else 'thumbnail_pattern_replaced')
 
     # -- header bytes, read independently
     hd = parse_header(data1)
@@ -805,10 +815,12 @@ def enumerate_cases(quick: bool) -> tuple[list, dict]:
     alts = ALTS_QUICK if quick else ALTS_THOROUGH
     for dev in deviations(alts, 2 if quick else 3):
         add(dev, 'deviation')
+    for dev in deviations(ALTS_DEEP, 4 if quick else 5):
+        add(dev, 'deviation_deep')
     # structural product
     layouts = [{'depth': 1}, {'depth': 2}, {'cube': 1}]
     if quick:
-        fmts, frames, mipmodes = ['RGBA8888', 'BGRA5551'], [1, 2], ['gen']
+        fmts, frames, mipmodes = ['RGBA8888', 'BGRA5551', 'RGB565', 'IA88'], [1, 2], ['gen', 'explicit']
     else:
         fmts, frames, mipmodes = WRITABLE, [1, 2], ['gen', 'explicit']
     for w in SIZES:
@@ -864,8 +876,9 @@ def run(ctx: core.Ctx) -> None:
         f'{len(WRITABLE)} writable main formats; NONE + {len(WRITABLE)} thumbnail formats; {len(RES)} resource sets; {len(SHEETS)} sheet sets x '
         f'sheet version 0/1; each of the 31 non-ENVMAP flag bits; mips generated/explicit; pixel phase; reflectivity; bump scale; '
         f'first frame; save(version=) override; clear_mipmaps(after)+compute_mipmaps on the re-read file).  Enumerated: every record deviating from the base '
-        f'(4x4, 1 frame, RGBA8888, no thumbnail, 7.5) in <= {d} dimensions, each to every alternative value; the full product '
-        f'w x h x layout(flat, depth 2, cubemap) x version x frames(1,2) x formats({2 if ctx.quick else len(WRITABLE)}) x mip modes; '
+        f'(4x4, 1 frame, RGBA8888, no thumbnail, 7.5) in <= {d} dimensions, each to every alternative value, and in <= {d + 2} dimensions '
+        f'over a reduced menu of boundary values ({sum(len(v) for v in ALTS_DEEP.values())} values in {len(ALTS_DEEP)} dimensions); the full product '
+        f'w x h x layout(flat, depth 2, cubemap) x version x frames(1,2) x formats({4 if ctx.quick else len(WRITABLE)}) x mip modes(2); '
         f'a codec sweep (every writable format as main image on 16x16{"" if ctx.quick else ", 32x32, 32x8"} and as 16x16 thumbnail x '
         f'{8 if ctx.quick else NPHASE} pixel phases + special pixels; 256 consecutive pattern pixels carry every byte value in every channel, all pixels distinct).  '
         f'Each distinct record is executed once (families are merged and de-duplicated).  Non-trivial = the file was saved, read back and at least one frame '
